@@ -20,6 +20,112 @@ DIM = 5
 REL = 1e-9
 
 
+STRUCT_REL = 4e-13
+
+
+def _pcoef(p):
+    """{key: (coefficient, sum of absolute raw entries)}"""
+    return {id(k): (float(c), abs(float(c))) for k, c in canon.point_coeffs(p).items()}
+
+
+def _ecoef(e):
+    G, F, c = canon.expr_coeffs(e)
+    d = {}
+
+    def acc(k, v):
+        o = d.get(k, (0.0, 0.0))
+        d[k] = (o[0] + float(v), o[1] + abs(float(v)))
+    for (p_, q_), v in G.items():
+        acc(("G",) + tuple(sorted((id(p_), id(q_)))), v)      # <p,q> and <q,p> are one term; the library may store both
+    for k_, v in F.items():
+        acc(("F", id(k_)), v)
+    if c:
+        acc(("C",), c)
+    return d
+
+
+def _lin(terms):
+    """terms: [(weight, coefficient dict)] -> (expected coefficients, sum of absolute contributions) per key"""
+    want, mag = {}, {}
+    for w, d in terms:
+        for k, (c, m) in d.items():
+            want[k] = want.get(k, 0.0) + w * c
+            mag[k] = mag.get(k, 0.0) + abs(w) * m
+    return want, mag
+
+
+def _prod(da, db):
+    want, mag = {}, {}
+    for i, (c, mc) in da.items():
+        for j, (d, md) in db.items():
+            k = ("G",) + tuple(sorted((i, j)))
+            want[k] = want.get(k, 0.0) + c * d
+            mag[k] = mag.get(k, 0.0) + mc * md
+    return want, mag
+
+
+def expected_structure(key, a, b):
+    """(expected coefficient dict, magnitude dict) of the result of `key` on (a, b), computed from the operands'
+    coefficients only; None when the operation has no structural reading here."""
+    from PEPit.point import Point
+    from PEPit.expression import Expression
+    cls, op = key.split(".")
+    sc = isinstance(b, (int, float)) and not isinstance(b, bool)
+    if sc and not math.isfinite(b):
+        return None
+    if cls == "Point":
+        A = _pcoef(a)
+        if op == "__add__" and isinstance(b, Point):
+            return _lin([(1.0, A), (1.0, _pcoef(b))])
+        if op == "__sub__" and isinstance(b, Point):
+            return _lin([(1.0, A), (-1.0, _pcoef(b))])
+        if op == "__neg__":
+            return _lin([(-1.0, A)])
+        if op in ("__mul__", "__rmul__") and sc:
+            return _lin([(float(b), A)])
+        if op in ("__mul__", "__rmul__") and isinstance(b, Point):
+            return _prod(A, _pcoef(b))
+        if op == "__truediv__" and sc and b != 0:
+            return _lin([(1.0 / float(b), A)])
+        if op == "__pow__":
+            return _prod(A, A)
+        return None
+    A = _ecoef(a)
+    B = _ecoef(b) if isinstance(b, Expression) else ({("C",): (float(b), abs(float(b)))} if sc and b != 0 else ({} if sc else None))
+    if op == "__neg__":
+        return _lin([(-1.0, A)])
+    if op in ("__mul__", "__rmul__") and sc:
+        return _lin([(float(b), A)])
+    if op == "__truediv__" and sc and b != 0:
+        return _lin([(1.0 / float(b), A)])
+    if B is None:
+        return None
+    if op in ("__add__", "__radd__"):
+        return _lin([(1.0, A), (1.0, B)])
+    if op in ("__sub__", "__le__", "__lt__", "__eq__"):
+        return _lin([(1.0, A), (-1.0, B)])
+    if op in ("__rsub__", "__ge__", "__gt__"):
+        return _lin([(-1.0, A), (1.0, B)])
+    return None
+
+
+def structure_mismatch(want, mag, got, allow_sign=False):
+    """first key whose coefficient differs from the expected one by more than rounding of its own contributions"""
+    for sign in ((1.0, -1.0) if allow_sign else (1.0,)):
+        bad = None
+        for k in set(want) | set(got):
+            w, g = sign * want.get(k, 0.0), got.get(k, (0.0, 0.0))[0]
+            m = mag.get(k, 0.0) + got.get(k, (0.0, 0.0))[1]
+            if not (math.isfinite(w) and math.isfinite(g)):
+                return None
+            if abs(g - w) > STRUCT_REL * m + 1e-300:
+                bad = (k, w, g)
+                break
+        if bad is None:
+            return None
+    return bad
+
+
 class AlgebraViolation(Exception):
     pass
 
@@ -142,7 +248,10 @@ class AlgebraMonitor(object):
             except Skip:
                 mon.by_op["skipped_nonfinite"] = mon.by_op.get("skipped_nonfinite", 0) + 1
                 return orig(a, *args, **kwargs)
-            except (canon.CanonError, TypeError, ZeroDivisionError, OverflowError):
+            except OverflowError:
+                mon.by_op["skipped_nonfinite"] = mon.by_op.get("skipped_nonfinite", 0) + 1
+                return orig(a, *args, **kwargs)
+            except (canon.CanonError, TypeError, ZeroDivisionError):
                 exp = None   # operand kind outside the documented ones: only "must raise" (negative tests)
             mon.depth += 1
             try:
@@ -209,9 +318,27 @@ class AlgebraMonitor(object):
                 # either sign denotes the same equality
                 if not self._close(got, want, mag) and self._close(-got, want, mag):
                     got = -got
+        if not (np.all(np.isfinite(got)) and np.all(np.isfinite(want)) and math.isfinite(mag)):
+            # overflow of the reference arithmetic itself (1e200 * 1e200): nothing can be decided
+            self.by_op["skipped_nonfinite"] = self.by_op.get("skipped_nonfinite", 0) + 1
+            return
         if not self._close(got, want, mag):
             self._viol("wrong_denotation:%s" % key,
                        "%s: result denotes %s, operands give %s" % (key, _fmt(got), _fmt(want)), key, a, b)
+        else:
+            # same value under one assignment is blind to terms far below the others (a coefficient of 1e-12 next to 1):
+            # every coefficient of the result must be the one the operands' coefficients give
+            try:
+                st = expected_structure(key, a, b)
+                if st is not None:
+                    gotc = _pcoef(res) if kind == "point" else _ecoef(res if kind == "expr" else res.expression)
+                    bad = structure_mismatch(st[0], st[1], gotc, allow_sign=(kind == "cons:equality"))
+                    self.by_op["coefficient_checks"] = self.by_op.get("coefficient_checks", 0) + 1
+                    if bad is not None:
+                        self._viol("wrong_coefficient:%s" % key, "%s: coefficient of %s is %r in the result, the operands give %r"
+                                   % (key, "a leaf term" if bad[0] != ("C",) else "the constant", bad[2], bad[1]), key, a, b)
+            except canon.CanonError:
+                pass
         # signature of the case (for distinct_nontrivial)
         self.signatures.add((key, type(b).__name__, _bucket(a), _bucket(b)))
 
